@@ -17,6 +17,7 @@ import (
 	"sync/atomic"
 	"syscall"
 	"time"
+	"unsafe"
 
 	"github.com/lesismal/nbio"
 	"verifharness/hx"
@@ -212,12 +213,21 @@ func (rt *realTier) tooMany() bool {
 	return os.Getenv("READPATH_ALL") == "" && (rt.slow >= 4 || rt.total >= 150)
 }
 
+// cpuTime: CPU time consumed by the process, from CLOCK_PROCESS_CPUTIME_ID (the scheduler's exact run-time sum).
+// getrusage is not used: on kernels with tick-based accounting it charges a whole 10 ms tick to whichever thread
+// happens to run at the tick, and threads woken by timers (the runtime's sysmon) run exactly then - an idle process
+// can show 30-100% of a core over a 300 ms window.
 func cpuTime() time.Duration {
-	var ru syscall.Rusage
-	if err := syscall.Getrusage(syscall.RUSAGE_SELF, &ru); err != nil {
-		return 0
+	var ts syscall.Timespec
+	const clockProcessCPUTimeID = 2
+	if _, _, e := syscall.Syscall(syscall.SYS_CLOCK_GETTIME, clockProcessCPUTimeID, uintptr(unsafe.Pointer(&ts)), 0); e != 0 {
+		var ru syscall.Rusage
+		if err := syscall.Getrusage(syscall.RUSAGE_SELF, &ru); err != nil {
+			return 0
+		}
+		return time.Duration(ru.Utime.Nano() + ru.Stime.Nano())
 	}
-	return time.Duration(ru.Utime.Nano() + ru.Stime.Nano())
+	return time.Duration(ts.Nano())
 }
 
 // cpuPct: process CPU time over a window in percent of one core; the calling goroutine sleeps.
@@ -226,15 +236,29 @@ func cpuPct(window time.Duration) float64 {
 	old := debug.SetGCPercent(-1)
 	defer debug.SetGCPercent(old)
 	time.Sleep(25 * time.Millisecond)
+	var m0, m1 runtime.MemStats
+	dbg := os.Getenv("READPATH_DEBUG") != ""
+	if dbg {
+		runtime.ReadMemStats(&m0)
+	}
 	t0, c0 := time.Now(), cpuTime()
 	time.Sleep(window)
 	c1, t1 := cpuTime(), time.Now()
-	return 100 * float64(c1-c0) / float64(t1.Sub(t0))
+	pct := 100 * float64(c1-c0) / float64(t1.Sub(t0))
+	if dbg && pct > 15 {
+		runtime.ReadMemStats(&m1)
+		fmt.Printf("busy window %.0f%%: numgc %d->%d heap %dMB sys %dMB goroutines %d released %dMB->%dMB\n", pct, m0.NumGC, m1.NumGC,
+			m1.HeapAlloc>>20, m1.Sys>>20, runtime.NumGoroutine(), m0.HeapReleased>>20, m1.HeapReleased>>20)
+	}
+	return pct
 }
 
-const spinPct = 30.0
+// a spinning reader burns a whole core (100%); background work of the Go runtime shows as 15-55% of a 120 ms window in
+// about one cell of ten and never in three consecutive windows
+const spinPct = 40.0
 
-// idleCheck: after the traffic nothing may burn CPU. A suspicious window is re-measured twice with 300 ms.
+// idleCheck: after the traffic nothing may burn CPU. A suspicious window is re-measured twice with 300 ms; all three
+// windows have to be above the threshold for a report.
 func (rt *realTier) idleCheck(c cell, replay map[string]interface{}) {
 	p := cpuPct(time.Duration(rt.idle) * time.Millisecond)
 	all := []float64{p}
@@ -458,6 +482,18 @@ func (rt *realTier) runStream(c cell, r *rand.Rand, engineNo int, doIdle bool) {
 	}
 	if r.Intn(2) == 0 {
 		plans[0].Role = "added"
+	}
+	// every cell has the half-close pattern: end of stream right behind the data on one peer, after delivery on another
+	if !rt.noHCNow {
+		plans[r.Intn(np)].End = "halfclose-now"
+	}
+	plans[r.Intn(np)].End = "halfclose-later"
+	hasNow := false
+	for _, p := range plans {
+		hasNow = hasNow || p.End == "halfclose-now"
+	}
+	if !hasNow && !rt.noHCNow {
+		plans[0].End = "halfclose-now"
 	}
 	replay := map[string]interface{}{"cell": c, "cell_name": c.Name(), "seed": rt.seed, "engine_no": engineNo,
 		"on_data_ptr": usePtr, "peers": plans, "rerun": fmt.Sprintf("readpath -seed %d -cell %s -gate 0", rt.seed, c.Name())}
@@ -697,7 +733,11 @@ func dgram(id, seq, n int) []byte {
 type remotePlan struct {
 	ID     int     `json:"id"`
 	Bursts [][]int `json:"bursts"` // datagram sizes
-	n      int
+	// CloseAfter >= 0: after this burst has been delivered the harness closes the remote's session (Conn.Close on the
+	// logical connection); the datagrams behind it must open a new session on another *Conn.
+	CloseAfter int `json:"close_session_after_burst"`
+	n          int
+	closeSeq   int32 // first datagram number of the second session (atomic; -1: none)
 }
 
 type udpRec struct {
@@ -715,7 +755,7 @@ func (rt *realTier) runUDP(c cell, r *rand.Rand, engineNo int, doIdle bool) {
 	var recs []udpRec
 	var counts [16]int32
 	var inCb, overlaps int32
-	var opens int32
+	var opens, sessClosed int32
 	g.OnOpen(func(nc *nbio.Conn) { atomic.AddInt32(&opens, 1) })
 	onData := func(nc *nbio.Conn, data []byte) {
 		if atomic.AddInt32(&inCb, 1) > 1 {
@@ -795,6 +835,11 @@ func (rt *realTier) runUDP(c cell, r *rand.Rand, engineNo int, doIdle bool) {
 			p.Bursts = append(p.Bursts, sz)
 			p.n += len(sz)
 		}
+		p.CloseAfter = -1
+		p.closeSeq = -1
+		if nb >= 2 && r.Intn(2) == 0 {
+			p.CloseAfter = r.Intn(nb - 1)
+		}
 		plans[k] = p
 		s, err := net.DialUDP("udp", &net.UDPAddr{IP: net.IPv4(127, 0, 0, 1)}, saddr)
 		if err != nil {
@@ -812,7 +857,24 @@ func (rt *realTier) runUDP(c cell, r *rand.Rand, engineNo int, doIdle bool) {
 		go func(k int, p *remotePlan) {
 			defer wg.Done()
 			seq := 0
-			for _, b := range p.Bursts {
+			for bi, b := range p.Bursts {
+				if bi > 0 && p.CloseAfter == bi-1 {
+					// everything sent so far has been delivered: close the session the datagrams were attributed to
+					mu.Lock()
+					var sc *nbio.Conn
+					for i := len(recs) - 1; i >= 0; i-- {
+						if recs[i].id == p.ID {
+							sc = recs[i].conn
+							break
+						}
+					}
+					mu.Unlock()
+					if sc != nil {
+						sc.Close()
+						atomic.StoreInt32(&p.closeSeq, int32(seq))
+						atomic.AddInt32(&sessClosed, 1)
+					}
+				}
 				for _, n := range b {
 					socks[k].Write(dgram(p.ID, seq, n))
 					seq++
@@ -857,8 +919,8 @@ func (rt *realTier) runUDP(c cell, r *rand.Rand, engineNo int, doIdle bool) {
 		}
 		return -1
 	}
-	connOf := map[int]*nbio.Conn{}
-	idOf := map[*nbio.Conn]int{}
+	connOf := map[[2]int]*nbio.Conn{} // (remote, session number) -> connection
+	idOf := map[*nbio.Conn][2]int{}
 	next := map[int]int{}
 	seen := map[[2]int]bool{}
 	var trunc, mixup, dup, order, corrupt string
@@ -906,14 +968,22 @@ func (rt *realTier) runUDP(c cell, r *rand.Rand, engineNo int, doIdle bool) {
 		}
 		next[rec.id] = rec.seq + 1
 		// sessions
-		if pc, ok := connOf[rec.id]; ok && pc != rec.conn && mixup == "" {
-			mixup = fmt.Sprintf("remote %d: datagram %d was attributed to another *Conn than its earlier datagrams (no session was closed)", rec.id, rec.seq)
+		sk := [2]int{rec.id, 0}
+		if cs := atomic.LoadInt32(&p.closeSeq); cs >= 0 && rec.seq >= int(cs) {
+			sk[1] = 1
 		}
-		connOf[rec.id] = rec.conn
-		if pid, ok := idOf[rec.conn]; ok && pid != rec.id && mixup == "" {
-			mixup = fmt.Sprintf("datagrams of remotes %d and %d were attributed to the same *Conn", pid, rec.id)
+		if pc, ok := connOf[sk]; ok && pc != rec.conn && mixup == "" {
+			mixup = fmt.Sprintf("remote %d: datagram %d was attributed to another *Conn than the earlier datagrams of the same session", rec.id, rec.seq)
 		}
-		idOf[rec.conn] = rec.id
+		connOf[sk] = rec.conn
+		if pid, ok := idOf[rec.conn]; ok && pid != sk && mixup == "" {
+			if pid[0] != sk[0] {
+				mixup = fmt.Sprintf("datagrams of remotes %d and %d were attributed to the same *Conn", pid[0], rec.id)
+			} else {
+				mixup = fmt.Sprintf("remote %d: datagram %d, sent after the remote's session had been closed, was attributed to the closed *Conn", rec.id, rec.seq)
+			}
+		}
+		idOf[rec.conn] = sk
 		if la := socks[rec.id-1].LocalAddr().String(); rec.addr != la && mixup == "" {
 			mixup = fmt.Sprintf("remote %d (%s): the *Conn handed to the callback has remote address %s", rec.id, la, rec.addr)
 		}
@@ -957,8 +1027,11 @@ func (rt *realTier) runUDP(c cell, r *rand.Rand, engineNo int, doIdle bool) {
 	if c.Transport == "udp" && len(rep.Samples) < 3 && rt.ncells%5 == 0 {
 		rep.Sample(replay)
 	}
-	if int(atomic.LoadInt32(&opens)) != nr && !bad {
-		add("udp-session-mixup", fmt.Sprintf("%d remotes sent datagrams, %d sessions were opened", nr, opens))
+	if want := nr + int(atomic.LoadInt32(&sessClosed)); int(atomic.LoadInt32(&opens)) != want && !bad {
+		add("udp-session-mixup", fmt.Sprintf("%d remotes sent datagrams and %d sessions were closed in between, but %d sessions were opened (expected %d)", nr, sessClosed, opens, want))
+	}
+	if sessClosed > 0 {
+		rep.Stat("R.udp-session-closed-and-reopened")
 	}
 	if !bad && doIdle {
 		rt.idleCheck(c, replay)
